@@ -1337,7 +1337,7 @@ struct array : static_array<T, D, Alloc> {
 		if(array::extensions() == other.extensions()) {
 			static_::operator=(other);  // TODO(correaa) : protect for self assigment
 		} else {
-			operator=(array{other});
+			operator=(array{other, this->get_allocator()});
 		}
 		return *this;
 	}
@@ -1352,7 +1352,7 @@ struct array : static_array<T, D, Alloc> {
 			static_::operator=(other);
 			//  this->operator()() = other;
 		} else {
-			operator=(static_cast<array>(other));
+			operator=(array{other, this->get_allocator()});
 		}
 		assert(this->stride() != 0);
 		return *this;
@@ -1373,7 +1373,11 @@ struct array : static_array<T, D, Alloc> {
 			//  static_::operator=(other);
 			this->operator()() = std::forward<Range>(other);
 		} else {
-			operator=(static_cast<array>(std::forward<Range>(other)));
+			if constexpr(std::is_constructible_v<array, Range&&, typename array::allocator_type const&>) {
+				operator=(array(std::forward<Range>(other), this->get_allocator()));
+			} else {
+				operator=(static_cast<array>(std::forward<Range>(other)));
+			}
 		}
 		return *this;
 	}
@@ -1416,7 +1420,7 @@ struct array : static_array<T, D, Alloc> {
 		if(adl_distance(first, last) == this->size() && (first == last || multi::extensions(*first) == multi::extensions(*this->begin()))) {
 			static_::ref::assign(first);
 		} else {
-			this->operator=(array(first, last));
+			this->operator=(array(first, last, this->get_allocator()));
 		}
 		return *this;
 	}
